@@ -969,6 +969,8 @@ def gen_concurrent(count, nops, max_clients, nspawn):
         # round-trips it through pickle before use (a real "spawn" start would re-run ./check as __mp_main__)
         for i in range(0 if tier == "search" else nspawn):
             yield dict(nsearch=1, pre=[[0, 1]], scripts=[rand_script(rng, 120, 1, i % 2 == 0) for _ in range(2 + i % 3)], start="fork", pickled=True)
+        for i in range(0 if tier == "search" else 2):
+            yield reader_writer_case(2, 2, 200 + 100 * i)
         for i in range(k):
             nc = rng.randint(2, max_clients) if i else max_clients
             ns = rng.randint(1, 2)
@@ -1087,6 +1089,32 @@ def static_lock_facts(cls):
             visit(ch, f2)
 
     visit(tree, None)
+
+    # every public data method runs ENTIRELY under the lock: its body (or the body of its decorator's wrapper) is one `with self.X:`
+    def only_with(fn):
+        body = [n for n in fn.body if not (isinstance(n, ast.Expr) and isinstance(getattr(n, "value", None), ast.Constant))]
+        if len(body) != 1 or not isinstance(body[0], ast.With) or len(body[0].items) != 1:
+            return False
+        e = body[0].items[0].context_expr
+        return isinstance(e, ast.Attribute) and isinstance(e.value, ast.Name) and e.attr in with_names
+
+    sync_decorators = set()
+    for node in tree.body:
+        if isinstance(node, ast.FunctionDef):
+            inner = [n for n in node.body if isinstance(n, ast.FunctionDef)]
+            if len(inner) == 1 and only_with(inner[0]):
+                sync_decorators.add(node.name)
+    wanted = set(data_methods())
+    for node in tree.body:
+        if isinstance(node, ast.ClassDef) and node.name == cls.__name__:
+            for fn in node.body:
+                if isinstance(fn, ast.FunctionDef) and fn.name in wanted:
+                    wanted.discard(fn.name)
+                    decos = [d.id for d in fn.decorator_list if isinstance(d, ast.Name)]
+                    if not (any(d in sync_decorators for d in decos) or only_with(fn)):
+                        bad.append("line %d: %s does not run entirely under the lock (neither a synchronising decorator nor a body that is one `with self.<lock>:`)" % (fn.lineno, fn.name))
+    for m in sorted(wanted):
+        bad.append("%s is not defined in class %s" % (m, cls.__name__))
     return sorted(with_names), bad
 
 
@@ -1374,8 +1402,17 @@ def check_certificate(case):
     return res
 
 
+def reader_writer_case(nwriters=2, nreaders=2, rounds=250):
+    """Writers keep adding NEW keys to their own jobs, readers keep copying the whole search (a copy made outside the lock tears)."""
+    w = [["new", 0]] * 4 + [[["meta", "store"][i % 2], i % 4, "fresh%d" % i, [i]] for i in range(rounds)]
+    r = [["new", 0]] + [["loadsearch", 0], ["outall", 0], ["metaall", 0, "fresh1"], ["listjobs", 0]] * (rounds // 4)
+    return dict(nsearch=1, pre=[[0, 3]], scripts=[w] * nwriters + [r] * nreaders, start="fork", switch=1e-6)
+
+
 def gen_certificate(rng, tier):
     if tier == "search":
+        for i in range(3):
+            yield dict(reader_writer_case(2, 3, 400), type="stress")
         for op in ("create_new_search", "create_new_job"):
             for ka in range(1, 9):
                 for kb in range(1, 11):
